@@ -125,6 +125,15 @@ def cases(tier, seed):
             continue
         for flags in FLAGS_HEL:
             out.append({"reaction": {"spec": spec}, "flags": flags, "seed": seed})
+    # live-builder sequences of flag changes (a model must not depend on what the
+    # builder formulated before) for reactions with several conserving nodes
+    live_specs = [sp_ for sp_ in factory_specs(tier)
+                  if len(sp_["chains"]) == 1 and sp_["chains"][0]["n"] == 3
+                  and all(sp_["chains"][0]["pc"].values())
+                  and (sp_["outer"]["-1"][1], sp_["outer"]["0"][1], sp_["outer"]["1"][1]) == ("1", "1/2", "1/2")]
+    for spec in live_specs[: (4 if tier == "quick" else 40)]:
+        out.append({"reaction": {"spec": spec}, "flags": {}, "live": True, "seed": seed})
+    out.append({"reaction": {"catalogue": "jpsi_ksp_sigma_n"}, "flags": {}, "live": True, "seed": seed})
     for base in CATALOGUE:
         if tier == "quick" and base in {"jpsi_ksp_full", "psi4160_ddpi", "jpsi_gpipi_f2_full", "jpsi_4body_omega_f0"}:
             continue
@@ -155,10 +164,11 @@ def _state_key(t):
     return (t.topology, tuple(sorted((i, s.particle.name, F(s.spin_projection)) for i, s in t.states.items())))
 
 
-def _formulate(reaction, flags):
+def _formulate(reaction, flags, builder=None):
     import ampform  # noqa: PLC0415
 
-    builder = ampform.get_builder(reaction)
+    if builder is None:
+        builder = ampform.get_builder(reaction)
     for flag, value in flags.items():
         if hasattr(builder.naming, flag):
             setattr(builder.naming, flag, value)
@@ -245,86 +255,99 @@ def eval_case(case):
     # ---------------- oracle 1: sign law, in both formalisms
     max_two_j = int(2 * max(Fraction(s.particle.spin).limit_denominator(2)
                             for t in rh.transitions for s in t.states.values()))
-    for label, reaction in (("helicity", rh), ("canonical", rc)):
-        if reaction is None:
-            continue
-        fl = flags if label == "helicity" else {k: v for k, v in flags.items() if k != "insert_child_helicities"}
-        builder, model = _formulate(reaction, fl)
-        coeff_syms = [s for s in model.parameter_defaults if str(s).startswith("C_")]
-        names = set()
-        for t in reaction.transitions:
-            for g in H.permuted_graphs(t):
-                names |= set(H.angle_names(g.topology))
-        grid, _ = c02.angle_grid(sorted(names), 1, seed) if len(names) > 2 else c02.angle_grid(sorted(names), max_two_j, seed)
-        factors, missing = _coupling_factors(reaction, builder, model, grid, coeff_syms)
-        if factors is None:
-            bad("component-free-symbols", f"{label}: components depend on undefined {missing}")
-            continue
-        child_hel = getattr(builder.naming, "insert_child_helicities", True)
-        groups = {}
-        for idx, (csyms, a) in factors.items():
-            groups.setdefault(csyms, []).append(idx)
-        for csyms, members in groups.items():
-            for i, j in itertools.combinations(members, 2):
-                ti, tj = reaction.transitions[i], reaction.transitions[j]
-                if ti.topology != tj.topology:
-                    continue
-                if any(ti.states[e].particle.name != tj.states[e].particle.name for e in ti.states):
-                    continue
-                nodes = sorted(ti.topology.nodes)
-                if label == "canonical" and any(
-                    (ti.interactions[n].l_magnitude, ti.interactions[n].s_magnitude)
-                    != (tj.interactions[n].l_magnitude, tj.interactions[n].s_magnitude) for n in nodes):
-                    continue
-                flipped, ok = [], True
-                for n in nodes:
-                    hi, hj = _node_hel(ti, n), _node_hel(tj, n)
-                    if hi == hj:
+    live_builders = {}
+    steps = [flags]
+    if case.get("live"):
+        steps = [{}, {"insert_parent_helicities": True}, {"insert_parent_helicities": False},
+                 {"insert_child_helicities": False}, {"insert_child_helicities": True},
+                 {"insert_parent_helicities": True}, {"insert_parent_helicities": False}]
+    for flags in steps:
+        for label, reaction in (("helicity", rh), ("canonical", rc)):
+            if reaction is None:
+                continue
+            fl = flags if label == "helicity" else {k: v for k, v in flags.items() if k != "insert_child_helicities"}
+            if case.get("live"):
+                # ONE builder per formalism is re-configured and re-formulated step by step
+                builder, model = _formulate(reaction, fl, live_builders.get(label))
+                live_builders[label] = builder
+            else:
+                builder, model = _formulate(reaction, fl)
+            coeff_syms = [s for s in model.parameter_defaults if str(s).startswith("C_")]
+            names = set()
+            for t in reaction.transitions:
+                for g in H.permuted_graphs(t):
+                    names |= set(H.angle_names(g.topology))
+            grid, _ = c02.angle_grid(sorted(names), 1, seed) if len(names) > 2 else c02.angle_grid(sorted(names), max_two_j, seed)
+            factors, missing = _coupling_factors(reaction, builder, model, grid, coeff_syms)
+            if factors is None:
+                bad("component-free-symbols", f"{label}: components depend on undefined {missing}")
+                continue
+            child_hel = getattr(builder.naming, "insert_child_helicities", True)
+            groups = {}
+            for idx, (csyms, a) in factors.items():
+                groups.setdefault(csyms, []).append(idx)
+            for csyms, members in groups.items():
+                for i, j in itertools.combinations(members, 2):
+                    ti, tj = reaction.transitions[i], reaction.transitions[j]
+                    if ti.topology != tj.topology:
                         continue
-                    if hj == (-hi[0], -hi[1]):
-                        flipped.append(n)
+                    if any(ti.states[e].particle.name != tj.states[e].particle.name for e in ti.states):
+                        continue
+                    nodes = sorted(ti.topology.nodes)
+                    if label == "canonical" and any(
+                        (ti.interactions[n].l_magnitude, ti.interactions[n].s_magnitude)
+                        != (tj.interactions[n].l_magnitude, tj.interactions[n].s_magnitude) for n in nodes):
+                        continue
+                    flipped, ok = [], True
+                    for n in nodes:
+                        hi, hj = _node_hel(ti, n), _node_hel(tj, n)
+                        if hi == hj:
+                            continue
+                        if hj == (-hi[0], -hi[1]):
+                            flipped.append(n)
+                        else:
+                            ok = False
+                            break
+                    if not ok or not flipped:
+                        continue
+                    # outer helicities other than through flipped nodes must agree: the
+                    # parent helicity of a non-flipped node may differ (it is the daughter of
+                    # a flipped one) - fine; the initial-state projection must be equal
+                    init = next(iter(ti.topology.incoming_edge_ids))
+                    if F(ti.states[init].spin_projection) != F(tj.states[init].spin_projection):
+                        continue
+                    if any(ti.interactions[n].parity_prefactor is None for n in flipped):
+                        note(f"{label}:pair-not-judged(non-conserving node flipped)")
+                        continue
+                    if label == "helicity" and not child_hel:
+                        note("helicity:pair-not-judged(sharing not due to parity coupling)")
+                        continue
+                    ai, aj = factors[i][1], factors[j][1]
+                    if ai is None or aj is None:
+                        bad("chain-not-proportional", f"{label}: component of chain {i if ai is None else j} is not"
+                            " a constant multiple of the Wigner-D product", chain=i if ai is None else j)
+                        continue
+                    want = 1
+                    for n in flipped:
+                        want *= _eta_of_node(ti, n)
+                    n_eval += 1
+                    judged_pairs += 1
+                    if abs(ai) < 1e-12 and abs(aj) < 1e-12:
+                        note(f"{label}:pair-both-zero")
+                        continue
+                    if abs(aj - want * ai) > 1e-9 * max(abs(ai), abs(aj)):
+                        etas = {n: _eta_of_node(ti, n) for n in nodes}
+                        tags = []
+                        if label == "helicity" and len([n for n in nodes if ti.interactions[n].parity_prefactor is not None]) >= 2:
+                            tags.append("several-parity-conserving-nodes")
+                        bad("parity-sign", f"{label}: chains {i},{j} share {csyms} and differ by reversal at nodes"
+                            f" {flipped}: coupling-factor ratio {aj / ai if abs(ai) > 0 else 'inf'} but prod eta = {want}"
+                            f" (eta per node {etas})", tags, chains=[i, j], flipped=flipped)
                     else:
-                        ok = False
-                        break
-                if not ok or not flipped:
-                    continue
-                # outer helicities other than through flipped nodes must agree: the
-                # parent helicity of a non-flipped node may differ (it is the daughter of
-                # a flipped one) - fine; the initial-state projection must be equal
-                init = next(iter(ti.topology.incoming_edge_ids))
-                if F(ti.states[init].spin_projection) != F(tj.states[init].spin_projection):
-                    continue
-                if any(ti.interactions[n].parity_prefactor is None for n in flipped):
-                    note(f"{label}:pair-not-judged(non-conserving node flipped)")
-                    continue
-                if label == "helicity" and not child_hel:
-                    note("helicity:pair-not-judged(sharing not due to parity coupling)")
-                    continue
-                ai, aj = factors[i][1], factors[j][1]
-                if ai is None or aj is None:
-                    bad("chain-not-proportional", f"{label}: component of chain {i if ai is None else j} is not"
-                        " a constant multiple of the Wigner-D product", chain=i if ai is None else j)
-                    continue
-                want = 1
-                for n in flipped:
-                    want *= _eta_of_node(ti, n)
-                n_eval += 1
-                judged_pairs += 1
-                if abs(ai) < 1e-12 and abs(aj) < 1e-12:
-                    note(f"{label}:pair-both-zero")
-                    continue
-                if abs(aj - want * ai) > 1e-9 * max(abs(ai), abs(aj)):
-                    etas = {n: _eta_of_node(ti, n) for n in nodes}
-                    tags = []
-                    if label == "helicity" and len([n for n in nodes if ti.interactions[n].parity_prefactor is not None]) >= 2:
-                        tags.append("several-parity-conserving-nodes")
-                    bad("parity-sign", f"{label}: chains {i},{j} share {csyms} and differ by reversal at nodes"
-                        f" {flipped}: coupling-factor ratio {aj / ai if abs(ai) > 0 else 'inf'} but prod eta = {want}"
-                        f" (eta per node {etas})", tags, chains=[i, j], flipped=flipped)
-                else:
-                    note(f"{label}:pair-ok(|F|={len(flipped)},prod-eta={want})")
+                        note(f"{label}:pair-ok(|F|={len(flipped)},prod-eta={want})")
     # ---------------- oracle 2: canonical equivalence
-    if rc is not None and not viol and flags.get("insert_child_helicities", True) and not identical_spin:
+    if rc is not None and not viol and flags.get("insert_child_helicities", True) and not identical_spin \
+            and not case.get("live"):
         fl_h = flags
         bh, mh = _formulate(rh, fl_h)
         bc, mc = _formulate(rc, {})
